@@ -85,7 +85,8 @@ def eval_cases(prop_id: str, run_module: str, terms: list, judge: str = "judge",
                tag: str = "cases", extra: str | None = None) -> tuple[list[tuple[int, bool, bool, list[int]]], list[str]]:
     """Evaluate `judge` on every case term inside Coq (vm_compute); returns the failing
     cases as (index, agree, ok, exclusions) and raw outputs of `extra` (per shard)."""
-    d = os.path.join(BUILD, "cases", prop_id, tag)
+    trial = os.environ.get("VERIF_REPO", "/repo") != "/repo"     # trial runs on a scratch tree may overlap a regular run of the same property
+    d = os.path.join(BUILD, "cases", prop_id, tag + (f"_trial{os.getpid()}" if trial else ""))
     shutil.rmtree(d, ignore_errors=True)
     os.makedirs(d)
     files = []
@@ -123,6 +124,8 @@ def eval_cases(prop_id: str, run_module: str, terms: list, judge: str = "judge",
                 fails.append((si + row[0], bool(row[1]), bool(row[2]), list(row[3:])))
             if extra and len(m) > 1:
                 extras.append(m[1])
+    if trial:
+        shutil.rmtree(d, ignore_errors=True)
     return fails, extras
 
 
